@@ -10,6 +10,7 @@ ENG = {
     "poolfuzz": {"name": "poolfuzz", "sources": ["poolfuzz.c"]},
     "rngdet": {"name": "rngdet", "sources": ["rngdet.c"]},
     "rngsamp": {"name": "rngsamp", "sources": ["rngsamp.c"]},
+    "corofuzz": {"name": "corofuzz", "sources": ["corofuzz.c", "probe.S"]},
     "statcheck": {"name": "statcheck", "sources": ["statcheck.c"], "extra_ldflags": "-lquadmath"},
 }
 
@@ -105,6 +106,28 @@ PROPS["C16"] = {
                     "samplers are driven from the dispatcher context (FP exceptions masked) so NaN results are observed rather than trapped"],
 }
 
+PROPS["C03"] = {
+    "engines": ENG,
+    "jobs": [
+        J("coro-api", "corofuzz", "rel", 0, 2000, 200000),
+        J("coro-mechanism", "corofuzz", "rel", 1, 2000, 200000),
+        J("coro-api-asan", "corofuzz", "asan", 0, 500, 20000),
+    ],
+    "rule": ("one case = 2-24 coroutines driven by a random scheduler for 30-3000 switches: start, resume, symmetric transfer, yield, "
+             "return, exit, stop, restart, children started by coroutines; every switching call goes through an assembly probe that loads "
+             "fresh 64-bit patterns (random + corner values + the peer's stack address) into rbx,rbp,r12-r15 and an MXCSR pattern "
+             "(4 rounding modes x FTZ/DAZ x masks x flags) before and compares after; 64-byte canary frames at recursion depth 0-40; "
+             "unique message tokens; entry (self, context), entry RSP mod 16, initial MXCSR, exit value/route checked; profile 1 calls "
+             "the assembly context switch directly between contexts built by the real cmi_coroutine_context_init (no compiled C frame in "
+             "between); distinct = fingerprint of the (kind,target) switch sequence; all cases non-trivial"),
+    "headline": ["probed_switches", "messages_delivered", "switch_sites", "entries_checked", "starts", "restarts", "resumes", "transfers",
+                 "yields", "stops", "ends_by_return", "ends_by_exit", "ends_observed_by_starter", "returns_through_trampoline",
+                 "max_depth_at_switch", "coroutines"],
+    "min_observed": {"quick": {"probed_switches": 200000, "restarts": 500, "ends_observed_by_starter": 1000, "returns_through_trampoline": 1000}},
+    "assumptions": ["register contents are sampled bit patterns (the switch moves registers without computing on them)",
+                    "a coroutine whose starter or caller has finished does not exit / yield (the library release-asserts the target is running)",
+                    "mechanism-level profile is not run under ASan (direct switches bypass the fibre annotations of hook H1)"],
+}
 PROPS["C17"] = {
     "engines": ENG,
     "jobs": [
@@ -186,6 +209,14 @@ MANIFEST_TEXT = {
         "note": "Trusts scipy reference distributions; finite samples: a distortion smaller than ~1e-3 in CDF (quick) is not visible.",
         "technique": "runtime monitoring: per-draw support oracle + goodness-of-fit monitors (KS/chi-square/moments/tails) over seeded samples, two-stage thresholds",
         "design_ref": "DESIGN.md 4/C16",
+    },
+    "C03": {
+        "level": ("Exploration of coroutine interleavings with exact-equality oracles on callee-saved registers, MXCSR, stack canaries "
+                  "and message tokens at every one of ~10^5..10^8 probed switches, at API level and directly at the assembly mechanism; "
+                  "held on the interleavings and bit patterns sampled."),
+        "note": "Trusts probe.S (60 lines of assembly) and the harness' model of who is suspended where; register values are sampled, not enumerated.",
+        "technique": "runtime monitoring: assembly register/MXCSR probes + stack canaries + unique message tokens over random coroutine schedules; ASan with fibre annotations",
+        "design_ref": "DESIGN.md 4/C03",
     },
     "C17": {
         "level": ("Exploration with an exact oracle: every accessor of data summaries compared with __float128 two-pass statistics over "
